@@ -1,42 +1,51 @@
 #!/usr/bin/env python3
-"""Development tool: detection matrix. Applies every seeded change (in a scratch copy of /repo and
-/verif under /var/tmp) and runs ALL quick checks in lite mode (ubcheck workloads only), recording
-which checks fire. usage: matrix.py [--stride K --offset O] [--out file]"""
-import json, os, subprocess, sys, time
+"""Development tool: detection matrix. Applies seeded changes one at a time in a scratch copy of
+/repo and /verif under $PQMUT_ROOT (default /var/tmp/pqmut) and runs the quick checks in lite
+mode (ubcheck workloads only; C05 is skipped: it needs the release build and cachegrind), recording
+for every check whether it fired and with which signatures. Two questions are answered per seed:
+does the check of the targeted property fire, and do the checks of properties the change does NOT
+violate stay silent.
+
+usage: matrix.py [--seeds C01-a,C02-b | --stride K --offset O] [--checks C01,C02] [--out file]
+Nothing is ever applied to /repo itself."""
+import json, os, sys
 sys.path.insert(0, os.path.dirname(os.path.abspath(__file__)))
 import mutate
 
-CHECKS = ["C%02d" % i for i in range(1, 19)]
+CHECKS = ["C%02d" % i for i in range(1, 19) if i != 5]
 
 
 def main():
     args = sys.argv[1:]
+
     def opt(name, default):
         return args[args.index(name) + 1] if name in args else default
+
     stride, offset = int(opt("--stride", "1")), int(opt("--offset", "0"))
     outp = opt("--out", os.path.join(mutate.ROOT, "matrix.jsonl"))
-    mutate.setup()
+    checks = opt("--checks", ",".join(CHECKS)).split(",")
     seeds = sorted(d for d in os.listdir("/verif/seeded") if os.path.exists("/verif/seeded/%s/patch.diff" % d))[offset::stride]
-    with open(outp, "a") as f:
-        for k, sd in enumerate(seeds):
-            t0 = time.time()
-            rc, out = mutate.sh("git init -q 2>/dev/null; git apply --unsafe-paths /verif/seeded/%s/patch.diff" % sd, mutate.REPO)
-            if rc != 0:
-                rc, out = mutate.sh("patch -p1 < /verif/seeded/%s/patch.diff" % sd, mutate.REPO)
-            row = {"seed": sd, "fired": [], "inconclusive": []}
-            for c in CHECKS:
-                if c == "C05":
-                    continue  # needs the release build and cachegrind; not part of the lite matrix
-                rc, out = mutate.sh("./check %s quick 2>&1" % c, mutate.VERIF, timeout=2400, env=dict(mutate.ENV, PQVERIF_LITE="1"))
-                if rc == 1:
-                    row["fired"].append(c)
-                elif rc != 0:
-                    row["inconclusive"].append(c)
-            row["seconds"] = round(time.time() - t0)
-            mutate.sh("patch -R -p1 < /verif/seeded/%s/patch.diff" % sd, mutate.REPO)
+    if "--seeds" in args:
+        seeds = opt("--seeds", "").split(",")
+    mutate.setup()
+    mutate.sh("git init -q; git add -A >/dev/null 2>&1; git commit -qm base >/dev/null 2>&1", mutate.REPO)
+    for k, sd in enumerate(seeds):
+        mutate.sh("git checkout -q -- .", mutate.REPO)
+        rc, out = mutate.sh("git apply --unsafe-paths /verif/seeded/%s/patch.diff" % sd, mutate.REPO)
+        if rc != 0:
+            print("[%d/%d] %s: patch does not apply: %s" % (k + 1, len(seeds), sd, out.strip()[:200]), flush=True)
+            continue
+        row = {"seed": sd, "fired": {}, "inconclusive": []}
+        for c in checks:
+            rc, out = mutate.sh("./check %s quick 2>&1" % c, mutate.VERIF, timeout=2400, env=dict(mutate.ENV, PQVERIF_LITE="1"))
+            if rc == 1:
+                row["fired"][c] = [l.strip()[11:130] for l in out.splitlines() if l.strip().startswith("signature:")][:6]
+            elif rc != 0:
+                row["inconclusive"].append(c)
+        mutate.sh("git checkout -q -- .", mutate.REPO)
+        with open(outp, "a") as f:
             f.write(json.dumps(row) + "\n")
-            f.flush()
-            print("[%d/%d] %s fired=%s inconclusive=%s (%ds)" % (k + 1, len(seeds), sd, ",".join(row["fired"]), ",".join(row["inconclusive"]), row["seconds"]), flush=True)
+        print("[%d/%d] %s fired=%s inconclusive=%s" % (k + 1, len(seeds), sd, ",".join(row["fired"]), ",".join(row["inconclusive"])), flush=True)
 
 
 if __name__ == "__main__":
